@@ -1,32 +1,100 @@
-// C13: the learnt transitivity facts.  The REAL Logic::learnEqTransitivity(PTRef) (its own DFS: vec<PTRef> stack + `processed` map, the
-// diamond pattern match, the end-point comparison) is executed over a valued symbolic term table: a formula DAG of SYMBOLIC SHAPE
-// whose every node carries its truth value under ONE symbolic valuation.  Obligation: the returned term (true, or the conjunction of the
-// learnt implications  D -> (= x z)) is TRUE under every valuation, i.e. every learnt fact is a valid formula, so conjoining it to the
-// frame formula neither removes nor adds models.
-#ifndef NF
-#define NF 9                 // formula nodes (the last one is the root handed to learnEqTransitivity)
-#endif
-#define STU_MAXN (8 + NF + 12)
+// C13: the learnt transitivity facts.  The REAL Logic::learnEqTransitivity(PTRef) (its own DFS with the vec<PTRef> stack and the `processed`
+// set, the diamond pattern match, the bridging-variable / end-point comparison) is executed over a valued symbolic term table: a formula
+// whose node LABELS (and/or, equality-or-Boolean-variable leaves, the variables compared by each equality) are symbolic and whose every node
+// carries its truth value under ONE symbolic valuation.  Obligation: the returned term (true, or the conjunction of the learnt implications
+// D -> (= x z)) is TRUE under every valuation, i.e. every learnt fact is a valid formula, so conjoining it to the frame formula (UFTheory::
+// preprocessBeforeSubstitutions) neither removes nor adds models.
+//
+// Formula family (one entry per arity triple RA, A0, A1 in {2,3}):
+//     root = (and F (p x0 x1 x2) (q x3 x4))          p, q: opaque Boolean atoms mentioning every variable (arbitrary truth values)
+//     F    = (and|or  N0 N1 [L6])                    RA children
+//     Nk   = (and|or  L L [L])                       A0 / A1 children, own leaves L0..L2 / L3..L5
+//     Li   = (= u v), u, v symbolic among the variables x0..x4 (u = v allowed)   |   a Boolean variable
+// The tree positions are concrete (so that the DFS control flow is concrete for the symbolic executor: a DFS over a term DAG of fully
+// symbolic topology did not finish, see CLAIM.json); everything the pattern match looks at is symbolic.
+#define STU_MAXN 24
 #include "stu_val.h"
 using namespace opensmt;
 using namespace stu;
 
-constexpr int NV = 5, NB = 2;                 // uninterpreted variables (values 0..3) / Boolean variables
-constexpr int F0 = NV + NB + 1;               // first formula node (node NV+NB is `true`)
-constexpr uint32_t SYM_IMPL = 13, SYM_TRUE = 14;
-constexpr int MAXFACTS = 4;
+constexpr int NV = 5;                                   // uninterpreted variables x0..x4, values 0..3
+constexpr uint32_t SYM_IMPL = 13, SYM_TRUE = 14, SYM_P = 40, SYM_Q = 41, SYM_BVAR0 = SYM_VAR0 + 8;
+enum : uint32_t { N_TRUE = 5, N_L0 = 6, N_L6 = 12, N_N0 = 13, N_N1 = 14, N_F = 15, N_P = 16, N_Q = 17, N_ROOT = 18, N_FIRST_NEW = 19 };
+constexpr int MAXFACTS = 2;
+#define VCAP 16
 
 union RawLogic { ArithLogic l; RawLogic() {} ~RawLogic() {} };
 static RawLogic rawLogic;
 
-static int n_impl, n_true_antecedent, harness_overflow;
+static int n_impl, n_true_antecedent;
 static PTRef last_antecedent;
 
+// Term table: plain typed arrays (symbol, arity, arguments, value); PTRef.x == node index.  Logic::getPterm / PtStore::operator[] answer
+// with an opaque handle (never dereferenced) and the Pterm accessors the function uses -- Pterm::size(), Pterm::symb(),
+// Pterm::operator[](int) -- answer from the table (an argument index beyond the arity is reported).
+static uint32_t n_sym[STU_MAXN], n_sz[STU_MAXN], n_arg[STU_MAXN][3];
+static void put(int i, uint32_t sym, int n, int32_t v, bool b, uint32_t a0 = 0, uint32_t a1 = 0, uint32_t a2 = 0) {
+    n_sym[i] = sym; n_sz[i] = n; n_arg[i][0] = a0; n_arg[i][1] = a1; n_arg[i][2] = a2;
+    val[i] = v; isBool[i] = b;
+}
+static PTRef append(uint32_t sym, int n, int32_t v, bool b, PTRef a0 = PTRef{0}, PTRef a1 = PTRef{0}, PTRef a2 = PTRef{0}) {
+    VASSERT(nnodes < STU_MAXN, "harness bound: term table full"); VASSUME(nnodes < STU_MAXN);
+    put(nnodes, sym, n, v, b, a0.x, a1.x, a2.x);
+    return PTRef{(uint32_t)nnodes++};
+}
+constexpr uintptr_t HANDLE0 = 0x100;
+static uint32_t nodeOf(Pterm const * p) {
+    uintptr_t h = reinterpret_cast<uintptr_t>(p) - HANDLE0;
+    VASSERT(h < (uintptr_t)nnodes, "Pterm accessor applied to a handle of the table"); VASSUME(h < (uintptr_t)nnodes);
+    return (uint32_t)h;
+}
+
+static PTRef vbig[2][VCAP], vsmall[MAXFACTS + 1][2];
+static int n_big, n_small;
+
+// the `processed` set of the DFS (minisat Map<PTRef,bool>; the real Map is checked in C28) as a bitmap over the table
+static bool proc_bits[STU_MAXN];
+static bool arg_is_var; static uint32_t arg_var;        // the last Pterm::operator[] answer was a variable argument of an equality leaf
+
 extern "C" {
+Pterm * stub_pterm(void *, PTRef r) {
+    VASSERT(ref_ok(r), "term reference outside the term table (undefined or garbage PTRef dereferenced)"); VASSUME(ref_ok(r));
+    return reinterpret_cast<Pterm *>(HANDLE0 + r.x);
+}
+int stub_ptSize(Pterm const * p) { return (int)n_sz[nodeOf(p)]; }
+SymRef stub_ptSymb(Pterm const * p) { return SymRef{n_sym[nodeOf(p)]}; }
+PTRef stub_ptArg(Pterm const * p, int i) {
+    uint32_t n = nodeOf(p);
+    VASSERT(i >= 0 && (uint32_t)i < n_sz[n], "Pterm::operator[]: argument index beyond the arity of the term"); VASSUME(i >= 0 && (uint32_t)i < n_sz[n]);
+    uint32_t a = n_arg[n][i];
+    arg_is_var = n >= N_L0 && n <= N_L6; arg_var = a;
+    return PTRef{a};
+}
 bool stub_isEquality(void *, PTRef t) {
     VASSERT(ref_ok(t), "isEquality asked about a term outside the table"); VASSUME(ref_ok(t));
-    uint32_t s = nodes[t.x].pt->sym.x;
-    return s == SYM_EQ || s == SYM_BEQ;
+    return n_sym[t.x] == SYM_EQ || n_sym[t.x] == SYM_BEQ;
+}
+// set membership.  Device that keeps the DFS control flow concrete: the (symbolic) variable argument of an equality leaf is answered `true`
+// without an array read once all variables are in the set -- exact, because it is asserted that the key IS a variable (index < NV) and
+// all NV variable bits are set (they are: the atoms p, q are visited first).
+bool stub_procHas(void *, PTRef const * k) {
+    VASSERT(ref_ok(*k), "processed.has on a known term"); VASSUME(ref_ok(*k));
+    bool isvar = arg_is_var && arg_var == k->x;
+    arg_is_var = false;
+    if (isvar && proc_bits[0] && proc_bits[1] && proc_bits[2] && proc_bits[3] && proc_bits[4]) {
+        VASSERT(k->x < NV, "harness: the argument of an equality leaf is a variable");
+        return true;
+    }
+    return proc_bits[k->x];
+}
+void stub_procInsert(void *, PTRef const * k, bool const *) {
+    VASSERT(ref_ok(*k) && !proc_bits[k->x], "processed.insert precondition: the key is not yet in the map"); VASSUME(ref_ok(*k));
+    proc_bits[k->x] = true; arg_is_var = false;
+}
+// (= a b): appended node, value computed from the argument values (virtual mkBinaryEq slot)
+PTRef stub_mkBinaryEq(void *, PTRef a, PTRef b) {
+    VASSERT(ref_ok(a) && ref_ok(b) && isBool[a.x] == isBool[b.x], "mkEq over two known terms of one sort"); VASSUME(ref_ok(a) && ref_ok(b));
+    return append(isBool[a.x] ? SYM_BEQ : SYM_EQ, 2, val[a.x] == val[b.x], true, a, b);
 }
 // (=> a b): appended node, value computed from the argument values (the real mkImpl builds (or (not a) b): C14)
 PTRef stub_mkImpl(void *, vec<PTRef> * args) {
@@ -36,105 +104,88 @@ PTRef stub_mkImpl(void *, vec<PTRef> * args) {
     VASSERT(isBool[a.x] && isBool[b.x], "mkImpl over Boolean terms");
     n_impl++; last_antecedent = a;
     if (val[a.x]) n_true_antecedent++;
-    return mkv(K_OTHER, SYM_IMPL, 2, !val[a.x] || val[b.x], true, a, b);
+    return append(SYM_IMPL, 2, !val[a.x] || val[b.x], true, a, b);
 }
-// conjunction of the learnt facts (1..MAXFACTS arguments; the node keeps the first three as children, its value is the full conjunction)
+// conjunction of the learnt facts (1..MAXFACTS arguments), value = conjunction of the argument values
 PTRef stub_mkAndFacts(void *, vec<PTRef> * args) {
     int n = args->size();
-    VASSERT(n >= 1 && n <= MAXFACTS, "harness bound: at most 4 learnt facts"); VASSUME(n >= 1 && n <= MAXFACTS);
+    VASSERT(n >= 1 && n <= MAXFACTS, "harness bound: number of learnt facts"); VASSUME(n >= 1 && n <= MAXFACTS);
     int32_t v = 1;
     for (int i = 0; i < MAXFACTS; i++) if (i < n) {
         PTRef a = (*args)[i];
         VASSERT(ref_ok(a) && isBool[a.x], "mkAnd over known Boolean terms"); VASSUME(ref_ok(a));
         if (!val[a.x]) v = 0;
     }
-    PTRef a0 = (*args)[0], a1 = n > 1 ? (*args)[1] : PTRef_Undef, a2 = n > 2 ? (*args)[2] : PTRef_Undef;
-    if (n == 1) return mkv(K_AND, SYM_AND, 1, v, true, a0);
-    if (n == 2) return mkv(K_AND, SYM_AND, 2, v, true, a0, a1);
-    return mkv(K_AND, SYM_AND, 3, v, true, a0, a1, a2);
+    return append(SYM_AND, n, v, true, (*args)[0], n > 1 ? (*args)[1] : PTRef{0});
 }
-// minisat vec<PTRef>::capacity (DFS stack, list of implications, argument vectors): fixed 40-element buffer, never reallocated
-// (a symbolic-size realloc makes the encoding explode); a request beyond it is flagged and asserted not to happen
-#define VCAP 40
+// minisat vec<PTRef>::capacity: typed static buffers, never reallocated (a symbolic-size realloc makes the encoding explode).  The DFS stack
+// and the list of implications (first request: push, min_cap 1) get VCAP slots each; the two-element argument vectors of mkImpl({a,b})
+// (first request: growTo(2)) get 2 slots.  A request beyond that is asserted not to happen.  vec::clear(true) (destructor) does not free.
 void stub_cap_ptref(vec<PTRef> * v, int min_cap) {
     if (v->cap >= min_cap) return;
-    VASSERT(min_cap <= VCAP, "harness bound: a PTRef vector (DFS stack) never needs more than 40 slots"); VASSUME(min_cap <= VCAP);
-    if (v->data == nullptr) v->data = (PTRef *)malloc(VCAP * sizeof(PTRef));
-    v->cap = VCAP;
+    if (v->data == nullptr && min_cap == 2) {
+        VASSERT(n_small <= MAXFACTS, "harness bound: number of two-element argument vectors"); VASSUME(n_small <= MAXFACTS);
+        v->data = vsmall[n_small++]; v->cap = 2; return;
+    }
+    VASSERT(v->data == nullptr && min_cap == 1 && n_big < 2, "harness bound: a PTRef vector (DFS stack, implications) never needs more than 16 slots");
+    VASSUME(v->data == nullptr && min_cap == 1 && n_big < 2);
+    v->data = vbig[n_big++]; v->cap = VCAP;
 }
-// bucket vectors of the real minisat Map `processed` (31 buckets, keys < 31: one key per bucket): fixed 2-slot allocation
-typedef Map<PTRef, bool, PTRefHash> PMap;
-void stub_cap_pair(vec<PMap::Pair> * v, int min_cap) {
-    if (v->cap >= min_cap) return;
-    VASSERT(min_cap <= 2, "harness bound: at most 2 keys per hash bucket"); VASSUME(min_cap <= 2);
-    if (v->data == nullptr) v->data = (PMap::Pair *)malloc(2 * sizeof(PMap::Pair));
-    v->cap = 2;
-}
-#ifdef SET_MODEL
-// alternative (-DSET_MODEL): the `processed` map as a plain bitmap
-static bool proc_bits[STU_MAXN];
-bool stub_procHas(void *, PTRef const * k) { VASSERT(ref_ok(*k), "processed.has on a known term"); VASSUME(ref_ok(*k)); return proc_bits[k->x]; }
-void stub_procInsert(void *, PTRef const * k, bool const *) { VASSERT(ref_ok(*k) && !proc_bits[k->x], "processed.insert: key must not exist"); VASSUME(ref_ok(*k)); proc_bits[k->x] = true; }
-#endif
+void stub_clear_ptref(vec<PTRef> * v, bool) { v->sz = 0; }
 }
 
 static uint32_t pick(uint32_t lo, uint32_t hi) { uint32_t c = nondet_u8(); VASSUME(c >= lo && c < hi); return c; }
 
-// node of symbolic kind with exact-size Pterm (2 or 3 arguments); children: any earlier nodes of the right sort
-static Pterm * alloc23(bool three) { return static_cast<Pterm *>(three ? malloc(sizeof(Pterm) + 12) : malloc(sizeof(Pterm) + 8)); }
-static bool is_andor[STU_MAXN];
-static void formula_node(int i) {
-    uint32_t kind = pick(0, 4);     // 0: (= u v) over uninterpreted variables  1: (= p q) over Boolean terms  2: and  3: or
-    bool three = kind >= 2 && nondet_bool();
-    uint32_t a, b, c = 0;
-    if (kind == 0) { a = pick(0, NV); b = pick(0, NV); }
-    else { a = pick(NV, i); b = pick(NV, i); if (three) c = pick(NV, i); }
-    int32_t v;
-    uint32_t sym; Kind k;
-    switch (kind) {
-    case 0: v = val[a] == val[b]; sym = SYM_EQ; k = K_EQ; break;
-    case 1: v = val[a] == val[b]; sym = SYM_BEQ; k = K_EQ; break;
-    case 2: v = val[a] && val[b] && (!three || val[c]); sym = SYM_AND; k = K_AND; break;
-    default: v = val[a] || val[b] || (three && val[c]); sym = SYM_OR; k = K_OR; break;
-    }
-    Node & n = nodes[i];
-    n.kind = k; n.nargs = three ? 3 : 2; n.num = nullptr; n.cval = 0;
-    n.pt = alloc23(three);
-    n.pt->header.type = 0; n.pt->header.has_extra = 0; n.pt->header.reloced = 0; n.pt->header.noscoping = 0; n.pt->header.size = three ? 3 : 2;
-    n.pt->id.x = i; n.pt->sym = SymRef{sym};
-    n.pt->args[0] = PTRef{a}; n.pt->args[1] = PTRef{b};
-    if (three) n.pt->args[2] = PTRef{c};
-    val[i] = v; isBool[i] = true; is_andor[i] = kind >= 2;
-    nnodes = i + 1;
+static void leaf(int i) {          // (= u v) over the variables, or a Boolean variable
+    if (nondet_bool()) { uint32_t u = pick(0, NV), v = pick(0, NV); put(i, SYM_EQ, 2, val[u] == val[v], true, u, v); }
+    else put(i, SYM_BVAR0 + (i - N_L0), 0, nondet_bool(), true);
+}
+static void inner(int i, int arity, uint32_t a, uint32_t b, uint32_t c) {     // and / or over concrete children
+    bool isAnd = nondet_bool();
+    int32_t v = isAnd ? (val[a] && val[b] && (arity < 3 || val[c])) : (val[a] || val[b] || (arity == 3 && val[c]));
+    put(i, isAnd ? SYM_AND : SYM_OR, arity, v, true, a, b, arity == 3 ? c : 0);
 }
 
-static void build_and_run() {
-    init_valued(&rawLogic.l);
-    rawLogic.l.sym_AND = SymRef{SYM_AND}; rawLogic.l.sym_OR = SymRef{SYM_OR};
-    for (int i = 0; i < NV; i++) vVar(i, 0, 3);
-    for (int i = 0; i < NB; i++) mkv(K_BVAR, SYM_VAR0 + 8 + i, 0, nondet_bool(), true);
-    PTRef tru = mkv(K_OTHER, SYM_TRUE, 0, 1, true);
-    rawLogic.l.term_TRUE = tru;
-    for (int i = F0; i < F0 + NF; i++) formula_node(i);
-    PTRef root{(uint32_t)(F0 + NF - 1)};
-    VASSUME(is_andor[root.x]);
-    n_impl = 0; n_true_antecedent = 0; harness_overflow = 0; last_antecedent = PTRef_Undef;
+template <int RA, int A0, int A1> static void run() {
+    init_logic(&rawLogic.l);
+    // Logic::mkEq(PTRef,PTRef) dispatches to the virtual mkBinaryEq: the raw logic object gets a vtable whose only filled slot is that one
+    fake_logic_vt[vslot(&Logic::mkBinaryEq)] = (void *)&stub_mkBinaryEq;
+    *reinterpret_cast<void ***>(L) = fake_logic_vt;
+    rawLogic.l.sym_AND = SymRef{SYM_AND}; rawLogic.l.sym_OR = SymRef{SYM_OR}; rawLogic.l.term_TRUE = PTRef{N_TRUE};
+    for (int i = 0; i < NV; i++) { int32_t v = nondet_u8(); VASSUME(v >= 0 && v <= 3); put(i, SYM_VAR0 + i, 0, v, false); }
+    put(N_TRUE, SYM_TRUE, 0, 1, true);
+    for (int i = N_L0; i <= N_L6; i++) leaf(i);
+    inner(N_N0, A0, N_L0, N_L0 + 1, N_L0 + 2);
+    inner(N_N1, A1, N_L0 + 3, N_L0 + 4, N_L0 + 5);
+    inner(N_F, RA, N_N0, N_N1, N_L6);
+    put(N_P, SYM_P, 3, nondet_bool(), true, 0, 1, 2);
+    put(N_Q, SYM_Q, 2, nondet_bool(), true, 3, 4);
+    put(N_ROOT, SYM_AND, 3, val[N_F] && val[N_P] && val[N_Q], true, N_F, N_P, N_Q);
+    nnodes = N_FIRST_NEW;
+    n_impl = 0; n_true_antecedent = 0; n_big = 0; n_small = 0; last_antecedent = PTRef_Undef; arg_is_var = false;
 
-    PTRef res = rawLogic.l.learnEqTransitivity(root);
+    PTRef res = rawLogic.l.learnEqTransitivity(PTRef{N_ROOT});
 
-    VASSERT(!harness_overflow, "harness: fixed vector capacities suffice");
     VASSERT(ref_ok(res) && isBool[res.x], "the result is a formula of the table"); VASSUME(ref_ok(res));
     VASSERT(val[res.x] == 1, "every learnt transitivity fact holds under every valuation (it is a valid consequence, conjoining it preserves the models)");
     if (n_impl == 0) {
-        VASSERT(res == tru, "without a recognised diamond the result is true");
+        VASSERT(res.x == N_TRUE, "without a recognised diamond the result is true");
         VWITNESS("no-fact-learnt");
+        if (n_sym[N_F] == SYM_OR && n_sym[N_N0] == SYM_AND && n_sym[N_N1] == SYM_AND) { VWITNESS("no-fact-learnt-from-an-or-of-ands"); }
     } else {
-        VASSERT(res != tru && nodes[res.x].kind == K_AND, "with a recognised diamond the result is the conjunction of the learnt implications");
-        VWITNESS("diamond-recognised-fact-learnt");
-        if (n_true_antecedent > 0) { VWITNESS("fact-with-true-antecedent"); }
-        if (n_impl >= 2) { VWITNESS("two-facts-learnt"); }
-        if (ref_ok(last_antecedent) && nodes[last_antecedent.x].kind == K_OR && last_antecedent != root) { VWITNESS("diamond-below-the-root"); }
+        VASSERT(res.x >= N_FIRST_NEW && n_sym[res.x] == SYM_AND, "with a recognised diamond the result is the conjunction of the learnt implications");
+        VASSERT(last_antecedent.x == N_F, "the antecedent of the learnt implication is the disjunction itself");
+        if constexpr (RA == 2) {       // (on the unchanged tree a three-argument disjunction never yields a fact)
+            VWITNESS("diamond-recognised-fact-learnt");
+            if (n_true_antecedent > 0) { VWITNESS("fact-with-true-antecedent"); }
+        }
     }
-    if (nodes[root.x].nargs == 3 && nodes[root.x].kind == K_OR) { VWITNESS("ternary-or-root"); }
 }
-extern "C" void h_eqtrans() { build_and_run(); }
+extern "C" void h_eqtrans_222() { run<2, 2, 2>(); }
+extern "C" void h_eqtrans_223() { run<2, 2, 3>(); }
+extern "C" void h_eqtrans_232() { run<2, 3, 2>(); }
+extern "C" void h_eqtrans_233() { run<2, 3, 3>(); }
+extern "C" void h_eqtrans_322() { run<3, 2, 2>(); }
+extern "C" void h_eqtrans_323() { run<3, 2, 3>(); }
+extern "C" void h_eqtrans_332() { run<3, 3, 2>(); }
+extern "C" void h_eqtrans_333() { run<3, 3, 3>(); }
